@@ -23,15 +23,15 @@ NPROC = int(os.environ.get('VERIF_NPROC', '16'))
 def _init_symbolic(prop):
     sys.setrecursionlimit(4000)
     from vf import loader
-    loader.install_symbolic()
     engine.load_harness(prop)
+    loader.install_symbolic()
 
 
 def _init_native(prop):
     sys.setrecursionlimit(4000)
     from vf import loader
-    loader.install_native()
     engine.load_harness(prop)
+    loader.install_native()
 
 
 def _sym_task(args):
@@ -71,6 +71,14 @@ def _nat_task(args):
             return conformance.run(args[1])
     except BaseException:
         return {'status': 'ERROR', 'error': traceback.format_exc(), 'ok': True, 'crashed': True}
+
+
+def _get(async_result, timeout):
+    """a native search that does not finish in time is no verdict (never a violation, never a crash of the check)"""
+    try:
+        return async_result.get(timeout=timeout)
+    except mp.TimeoutError:
+        return {'ok': True, 'tried': 0, 'timed_out': True}
 
 
 def load_known():
@@ -155,8 +163,8 @@ def main(argv):
                                'failed': nr['failed'], 'trace': nr.get('trace'), 'cex': cex}
                         break
                 if rep is None:
-                    sr = npool.apply_async(_nat_task, (('search', r['oid'], r['case_idx'],
-                                                        max(o.samples, 400), seed),)).get(timeout=1800)
+                    sr = _get(npool.apply_async(_nat_task, (('search', r['oid'], r['case_idx'],
+                                                            max(o.samples, 400), seed),)), 900)
                     if not sr.get('ok', True):
                         rep = {'how': f'bounded native search ({sr.get("tried")} inputs) after the counter-model did '
                                       f'not reproduce', 'inputs': sr['used'], 'failed': sr['failed'],
@@ -164,8 +172,7 @@ def main(argv):
                 r['replay'] = rep
                 violations.append(r)
             elif r['status'] == 'UNDECIDED':
-                sr = npool.apply_async(_nat_task, (('search', r['oid'], r['case_idx'], max(o.samples, 300), seed),)
-                                       ).get(timeout=1800)
+                sr = _get(npool.apply_async(_nat_task, (('search', r['oid'], r['case_idx'], max(o.samples, 300), seed),)), 900)
                 if not sr.get('ok', True):
                     r['replay'] = {'how': f'bounded native stand-in for an undecided obligation', 'inputs': sr['used'],
                                    'failed': sr['failed'], 'trace': sr.get('trace'), 'cex': None}
